@@ -191,6 +191,11 @@ class EventModels(K.ControlModels):
             elem = it.elem.wrap(z3.simplify(it.t[i]))
             n0 = len(bp.heap.get(('g', 'heard'), ()))
             data = bp.heap.get(('g', 'event_data'))
+            # at an arbitrary iteration the listeners called so far may have changed the live list (rely A11): whatever the
+            # body reads from it is unconstrained - the snapshot alone decides who is called
+            ev_oid = bp.heap.get(('g', 'event_oid'))
+            if ev_oid is not None:
+                bp.heap[('f', ev_oid, 'callbacks')] = VSeq(z3.Const('cbs_live!%d' % bp.fresh(), z3.SeqSort(z3.IntSort())), TL)
             for p2, r in ex.assign(st.target, elem, bp, fr):
                 for p3, flow, v in ex.exec_block(st.body, p2, fr):
                     heard = p3.heap.get(('g', 'heard'), ())[n0:]
